@@ -121,6 +121,27 @@ let parse_node (t : string list) : fop * int list =
   | ["dshra"; a; b; c] -> (F_dshra, refs [a; b; c])
   | ["dynbit"; a; i] -> (F_dynbit, refs [a; i])
   | ["dynslice"; w; a; off] -> (F_dynslice (ni w), refs [a; off])
+  | "mslice" :: spec :: l when l <> [] ->
+    let form = function
+      | ["d"; w; k] -> SF_dyn (ni w, ni k)
+      | ["p"; p; k] | ["q"; p; k] -> SF_part (ni p, ni k)
+      | ["b"; k] -> SF_dynbit (ni k)
+      | ["s"; o; w] -> SF_static (ni o, ni w)
+      | ["t"; p; i] -> SF_spart (ni p, ni i)
+      | ["i"; i] -> SF_bit (ni i)
+      | ["m"] -> SF_msb | ["l"] -> SF_lsb
+      | ["u"; w] -> SF_upper (ni w) | ["o"; w] -> SF_lower (ni w)
+      | _ -> failwith ("bad slice form in " ^ spec) in
+    let item it =
+      match String.split_on_char ':' it with
+      | ["g"; v] -> SR_assign (ni v)
+      | hd :: rest when String.length hd >= 2 && hd.[0] = 'r' -> SR_read (form (String.sub hd 1 (String.length hd - 1) :: rest))
+      | hd :: rest when String.length hd >= 2 && hd.[0] = 'w' ->
+        (match List.rev rest with
+         | v :: fr -> SR_write (form (String.sub hd 1 (String.length hd - 1) :: List.rev fr), ni v)
+         | [] -> failwith ("write without value in " ^ spec))
+      | _ -> failwith ("bad slice request " ^ it) in
+    (F_mslice (List.map item (String.split_on_char ',' spec)), refs l)
   | "cat" :: l when l <> [] -> (F_cat, refs l)
   | "pack" :: l when l <> [] -> (F_pack, refs l)
   | "mux" :: sel :: l when l <> [] -> (F_mux, refs (sel :: l))
